@@ -16,6 +16,9 @@ import traceback
 HERE = os.path.dirname(os.path.dirname(os.path.abspath(__file__)))
 sys.path.insert(0, HERE)
 REPO = os.environ.get('SEDVC_REPO', '/repo')
+# where evidence/ and replays/ are written (tools/run_seeds_par.sh points it at a scratch directory so that runs on a
+# seeded copy of the repository never touch the committed evidence)
+OUT = os.environ.get('VERIF_OUT_DIR') or HERE
 sys.path.insert(0, REPO)
 
 from vcheck.table import PROPS          # noqa: E402
@@ -136,13 +139,13 @@ def native_counterexample(function, variant, obligation):
 
 
 def write_replay(prop, name, payload):
-    d = os.path.join(HERE, 'replays')
+    d = os.path.join(OUT, 'replays')
     os.makedirs(d, exist_ok=True)
     safe = ''.join(ch if ch.isalnum() or ch in '-_.' else '_' for ch in name)[:80]
     path = os.path.join(d, '%s-%s.json' % (prop, safe))
     with open(path, 'w') as f:
         json.dump(payload, f, indent=1, default=str)
-    return os.path.relpath(path, HERE)
+    return os.path.relpath(path, OUT)
 
 
 def main(argv):
@@ -337,7 +340,7 @@ def write_evidence(prop, tier, seed, info, e1s, rec, samples, assumptions, undec
         cov['samples'] = [dict(note='no case recorded')]
     ev = dict(property_id=prop, tier=tier, seed=seed, level=level, coverage=cov, assumptions=sorted(assumptions),
               wall_s=round(wall, 2), violations=nviol)
-    d = os.path.join(HERE, 'evidence')
+    d = os.path.join(OUT, 'evidence')
     os.makedirs(d, exist_ok=True)
     with open(os.path.join(d, prop + '.json'), 'w') as f:
         json.dump(ev, f, indent=1, default=str)
@@ -352,7 +355,7 @@ def _z3v():
 
 
 def replay(prop, path):
-    full = path if os.path.isabs(path) else os.path.join(HERE, path)
+    full = path if os.path.isabs(path) else os.path.join(OUT, path)
     payload = json.load(open(full))
     if payload.get('kind') == 'E2-case':
         from rtc.core import Recorder
